@@ -309,6 +309,10 @@ class World:
             self.res[int(a[0])].remove(O[int(a[1])]); return None
         if op == 'delete':
             O[int(a[0])].delete(recursive=a[1] == '1'); return None
+        if op == 'pdelete':
+            # the same deletion asked of a (resolved) proxy standing for the object, as a holder in another resource would
+            from pyecore.ecore import EProxy
+            EProxy(wrapped=O[int(a[0])]).delete(recursive=a[1] == '1'); return None
         o, f = O[int(a[0])], self.mm.feats[int(a[1])]
         ef = F[f.fid]
         if op == 'set':
